@@ -14,6 +14,9 @@ out = {"instances": {}}
 for p in ALL:
     res = run_property(p, Index(os.environ.get("CXA_REPO", "/repo")))
     out[p] = sorted(k for k, v in res.rules.items() if v["instances"] > 0)
-    out["instances"][p] = {r: sorted(keys) for r, keys in res.decided.items() if 0 < len(keys) <= 40}
+    # instance-level confirmation only for rules whose instance keys are semantic; C09 SC-1 keys carry the source text of the
+    # comparison (diagnostic), which every refactoring changes - that rule is confirmed by count only
+    TEXT_KEYED = {("C09", "SC-1")}
+    out["instances"][p] = {r: sorted(keys) for r, keys in res.decided.items() if 0 < len(keys) <= 40 and (p, r) not in TEXT_KEYED}
 json.dump(out, open(os.path.join(HERE, "cxa", "confirmed_rules.json"), "w"), indent=1, sort_keys=True)
 print({p: (len(out[p]), sum(len(v) for v in out["instances"][p].values())) for p in ALL})
